@@ -19,7 +19,7 @@ EXPLANATION = (
     "partitioner, NUMA hints, the shared low-priority queue.")
 ASSUMPTIONS = ["thread_pool_base::create_work is implemented by scheduled_thread_pool only", "hints are honoured by the queue selection decided in C01.R7/C19.R4"]
 THOROUGH_CONFIGS = [["-UNDEBUG", "-DPIKA_DEBUG"]]
-FLOORS = {"C10.R1": 2, "C10.R2": 5, "C10.R3": 4, "C10.R4": 8, "C10.R5": 8}
+FLOORS = {"C10.R1": 2, "C10.R2": 5, "C10.R3": 4, "C10.R4": 8, "C10.R5": 8, "C10.R6": 4}
 
 SETV = "pika::execution::experimental::set_value"
 SETE = "pika::execution::experimental::set_error"
@@ -55,6 +55,7 @@ def run(rep, tier):
     rep.rule("C10.R2", "K8: execute -> register_work(data, pool_); pool create_work/create_thread pass sched_.get(); create_work creates on the given scheduler")
     rep.rule("C10.R3", "K6: schedule_from completes downstream with values only from scheduler_sender_receiver::set_value")
     rep.rule("C10.R4", "K7/K6: static policies mask stealing; cross-queue access only under enable_stealing")
+    rep.rule("C10.R6", "K6 (who may advertise a completion scheduler): a sender adaptor forwards its predecessor's environment unchanged only if its receiver completes downstream inside the predecessor's completion; an adaptor whose completion members start another operation (let_value, let_error: the operation returned by the user's callable; schedule_from: the scheduler's) completes wherever that operation completes and must not advertise the predecessor's completion scheduler (bulk's pool customisation trusts it)")
     rep.rule("C10.R5", "K8/K2: scheduling_loop re-queues with thread_schedule_hint(num_thread) and records the worker in the task before entering its body; resume paths take their hint from it")
 
     D = facts(rep, driver("c10_exec.cpp"), [r"thread_pool_scheduler::operation_state::start$", r"std_thread_scheduler::operation_state::start$",
@@ -398,3 +399,40 @@ def run(rep, tier):
             rep.bad("C10.R5", fn, loc_of(body[0][2]), "worker-not-recorded", "the task body is entered without set_last_worker_thread_num(num_thread): "
                     "a resume that races with the task's first suspension re-queues it with hint -1 and, under a static policy, a "
                     "hinted task runs its next phase on another worker")
+
+    # ---- R6: environment forwarding
+    AL = facts(rep, driver("c03_algos.cpp"), [r"^pika::\w+_detail::"])
+    by_ns = {}
+    for f in AL.fns:
+        if not f.pattern or f.parent != -1:
+            continue
+        m = re.match(r"^(pika::\w+_detail)::", f.qname)
+        if m:
+            by_ns.setdefault(m.group(1), []).append(f)
+    n6 = 0
+    for ns, fs in sorted(by_ns.items()):
+        # anything but the operation state's own start() (which starts the predecessor) that starts an operation:
+        # completion members, their visitors and helpers
+        starts = [(f, e) for f in fs if f.qname.rsplit("::", 1)[-1] != "start"
+                  for f2 in [f] + list(f.lambdas()) for _, _, e in f2.all_events()
+                  if e.get("k") == "call" and (callee_of(e) in ("pika::execution::experimental::start", "pika::execution::experimental::start_t::operator()") or
+                                               (callee_short(e) in ("start", "operator()") and T(e).startswith("start(")) or
+                                               "start_visitor" in T(e))]
+        for f in fs:
+            if f.qname.rsplit("::", 1)[-1] != "get_env" or "receiver" in f.qname.rsplit("::", 2)[-2].lower():
+                continue
+            rets = [e for _, _, e in f.all_events() if e.get("k") == "return" and e.get("e") is not None]
+            plain = [e for e in rets if isinstance(strip(e["e"]), dict) and strip(e["e"]).get("k") == "call" and
+                     callee_of(strip(e["e"])).endswith("get_env") and strip(e["e"]).get("args") and re.match(r"^(this->)?\w+$", P(strip(e["e"])["args"][0]))]
+            if not plain:
+                continue
+            n6 += 1
+            if starts:
+                rep.bad("C10.R6", f, loc_of(plain[0]), "env-forwarded:" + ns.rsplit("::", 1)[-1], "%s forwards its predecessor's environment (%s), but %s starts another operation "
+                        "on completion (%s): the sender completes where that operation completes, not on the predecessor's scheduler - a following bulk selects the wrong pool's "
+                        "customisation and runs f on workers of another pool" % (f.qname, T(plain[0]["e"]), starts[0][0].qname, loc_of(starts[0][1])))
+            else:
+                rep.ok("C10.R6", f, "%s forwards the predecessor's environment; no completion member of %s starts another operation" % (f.qname.rsplit("::", 2)[-2], ns))
+    if n6 < 4:
+        raise AnalysisBroken("C10.R6: only %d environment-forwarding senders found" % n6)
+
